@@ -9,7 +9,7 @@ EXTENDS FoxStrings
 \*   otherOpError   *net.OpError with another cause
 \*   error, string, nilval (panic(nil) -> *runtime.PanicNilError), custom
 Classes == {"abort", "wrappedAbort", "brokenPipe", "connReset", "otherOpError", "error", "string", "nilval", "custom"}
-Progress == {"none", "header", "partial"}
+Progress == {"none", "header", "partial", "flushed"}    \* flushed: the header went out through Flush, no explicit WriteHeader
 
 Repanic(class) == class \in {"abort", "wrappedAbort"}
 Broken(class) == class \in {"brokenPipe", "connReset"}
